@@ -423,4 +423,22 @@ Definition show_seq (open close : list byte) (self : V) (elems : list V) (k : si
   let o0 := print_to V render show k pos open [self] in
   then_print (show_elems o0 elems) close [].
 
+(* Table_Show / Tree_Show:  OPEN = "<'Table' At 0x%p {", per entry print_to(output, pos, "%$:%$", key, val),
+   ", " between entries, CLOSE = "}>".  (Table_Show decides "not last" by j < Table_Len(t)-1 with j the number
+   of entries printed so far; with the Table invariant "occupied slots = Table_Len" that is "entries remain".) *)
+Definition KV : list byte := [PCT; DOLLAR; 58; PCT; DOLLAR].   (* "%$:%$" *)
+
+Fixpoint show_pairs (o : outcome) (elems : list (V * V)) : outcome :=
+  match elems with
+  | [] => o
+  | (key, val) :: rest =>
+    let o1 := then_print o KV [key; val] in
+    let o2 := match rest with [] => o1 | _ => then_print o1 SEP [] end in
+    show_pairs o2 rest
+  end.
+
+Definition show_map (open close : list byte) (self : V) (elems : list (V * V)) (k : sink) (pos : nat) : outcome :=
+  let o0 := print_to V render show k pos open [self] in
+  then_print (show_pairs o0 elems) close [].
+
 End ContainerShow.
